@@ -66,7 +66,7 @@ static FILE *slog, *clog_, *glog, *evlog; static char *slog_b, *clog_b, *glog_b,
 static int listener = -1, lport, ulistener = -1, cport, flistener = -1;
 static char fpath[160];
 static FILE* vlog; static char* vlog_b; static size_t vlog_n; static int unclaimed;
-static int aux_out, g_now;       /* write/shutdown requests of the script still outstanding; shutdown/read_start done */
+static int aux_out, g_now, ever_connected;       /* write/shutdown requests of the script still outstanding; shutdown/read_start done */
 static char upath[160], missing[160], overlong[512], regfile[160];
 /* write2 part */
 static int w_fd = -1; static FILE* wlog; static char* wlog_b; static size_t wlog_n; static int w_logged;
@@ -164,11 +164,11 @@ static void connect_cb(uv_connect_t* r, int status) {
       gp = (uv_fileno((uv_handle_t*) r->handle, &fd) == 0 && getpeername(fd, (struct sockaddr*) &ss, &sl) == 0) ? 0 : -errno;
     }
     a = arrivals();
-    if (status == 0 && a + unclaimed == 0) {
+    if (status == 0 && a + unclaimed == 0 && !ever_connected) {   /* a fresh socket: the listener must get it */
       struct pollfd pf[2]; pf[0].fd = listener; pf[1].fd = ulistener; pf[0].events = pf[1].events = POLLIN;
       pf[0].revents = pf[1].revents = 0; poll(pf, 2, 2000); a = arrivals();
     }
-    if (status == 0) unclaimed = a + unclaimed > 0 ? a + unclaimed - 1 : 0; else unclaimed += a;
+    if (status == 0) { unclaimed = a + unclaimed > 0 ? a + unclaimed - 1 : 0; ever_connected = 1; } else unclaimed += a;
     fprintf(vlog, "c%d,%d,%d,%d,%d%d ", ((struct creq*) r)->id, status, a, gp,
             uv_is_readable(r->handle), uv_is_writable(r->handle));
   }
@@ -326,7 +326,7 @@ static void run_connect_case(char** sec) {
   slog = open_memstream(&slog_b, &slog_n); clog_ = open_memstream(&clog_b, &clog_n);
   glog = open_memstream(&glog_b, &glog_n); evlog = open_memstream(&ev_b, &ev_n);
   vlog = open_memstream(&vlog_b, &vlog_n);
-  nreq = 0; g_quiet = 0; g_closing = 0; in_call = 0; g_watch_fd = -1; aux_out = 0; g_now = 0;
+  nreq = 0; g_quiet = 0; g_closing = 0; in_call = 0; g_watch_fd = -1; aux_out = 0; g_now = 0; ever_connected = 0;
   uv_loop_init(&loop);
   uv_prepare_init(&loop, &keepalive); uv_prepare_start(&keepalive, prep_cb);
   if (g_kind == 't') uv_tcp_init(&loop, &h.tcp); else uv_pipe_init(&loop, &h.pipe, 0);
